@@ -23,6 +23,7 @@ def run(ctx):
     c11.writes_inside_commit(ctx, 'C10')
     ss.cache_after_db(ctx, 'C10')
     ss.write_apis_unconditional(ctx, 'C10')
+    ss.log_writes_only_when_active(ctx, 'C10')
     ss.transaction_lifecycle(ctx, 'C10')   # no transaction left open: rollback/commit always release
     ds.join_rules(ctx, 'C10')
     ds.err_discipline(ctx, 'C10', ['akd::directory::', 'akd::append_only_zks::', 'akd::tree_node::', 'akd::storage::manager::'], EXC)
